@@ -42,6 +42,14 @@ static void portable_sstring(Src &s, Case &c) { c14::str_target<igris_portable::
     "resize(0..2N), clear, copy/move assignment incl. self, destruction; non-trivial = at least one " \
     "operation offered more elements than the remaining room"
 
+static void portable_svec_small(Src &s, Case &c)
+{
+    if (s.coin())
+        c14::vec_target<igris_portable::static_vector, signed char, VecApi>(s, c);
+    else
+        c14::vec_target<igris_portable::static_vector, short, VecApi>(s, c);
+}
+VP_TARGET("portable_svec_small", portable_svec_small, C14_PVEC_RULE("static_vector<signed char,N> / static_vector<short,N>"));
 VP_TARGET("portable_svec_int", portable_svec_int, C14_PVEC_RULE("static_vector<int,N>"));
 VP_TARGET("portable_svec_tracked", portable_svec_tracked, C14_PVEC_RULE("static_vector<Tracked,N>"));
 VP_TARGET("portable_sstring", portable_sstring,
